@@ -9,14 +9,14 @@ def spec(tier, seed):
     for (w, h) in sizes:
         for bi in g.idct_dc_blocks(w, h):
             gen_i += g.idct_inst("dc", w, h, bi)
-            jobs.append(Job("h263", g.idct_name("dc", w, h, bi), 2400, tagged=True, group="inverse transform: zero / DC-only blocks", params={"plane": "%dx%d" % (w, h), "dc_block": bi},
+            jobs.append(Job("h263", g.idct_name("dc", w, h, bi), 2400, tagged=False, group="inverse transform: zero / DC-only blocks", params={"plane": "%dx%d" % (w, h), "dc_block": bi},
                             allow_uncovered=("last sample of a cropped block", "rounding boundary (x.5)", "most negative coefficient")))
-    jobs.append(Job("h263", "c02_basis_table", 300, tagged=True, group="basis constants"))
-    jobs.append(Job("h263", "c02_idct_1d_one_hot", 1200, tagged=True, group="1-D transform wiring"))
+    jobs.append(Job("h263", "c02_basis_table", 300, tagged=False, group="basis constants"))
+    jobs.append(Job("h263", "c02_idct_1d_one_hot", 1200, tagged=False, group="1-D transform wiring"))
     for (w, h) in sizes:
         gen_i += g.idct_inst("contract", w, h)
         for (nm, b_, v_) in g.idct_contract_instances(w, h):
-            jobs.append(Job("h263", nm, 1200, tagged=True, group="inverse transform: every sparsity variant stays inside its block and the plane", params={"plane": "%dx%d" % (w, h), "block": b_, "variant": ["", "Dc", "Horiz", "Vert", "Full"][v_]}))
+            jobs.append(Job("h263", nm, 1200, tagged=False, group="inverse transform: every sparsity variant stays inside its block and the plane", params={"plane": "%dx%d" % (w, h), "block": b_, "variant": ["", "Dc", "Horiz", "Vert", "Full"][v_]}))
     c11spec = c11.spec(tier, seed)
     jobs += [j for j in c11spec["jobs"] if j.expect == "pass"]
     generated = {"h263/src/decoder/cpu/idct.rs": gen_i}
